@@ -485,7 +485,9 @@ class TDS(BaseRoutine):
             logger.error("Simulation terminated at t=%.4f s.", system.dae.t)
             system.exit_code += 1
         elif system.dae.t == self.config.tf:
-            succeed = True   # success flag
+            # reaching the end time from a failed initialization is not a valid result;
+            # `test_init` has already raised the exit code
+            succeed = (self.test_ok is not False)   # success flag
             system.exit_code += 0
             self.pbar.update(100 - self.last_pc)
         else:
